@@ -104,6 +104,13 @@ impl TransportIntegrity {
     }
 }
 
+#[cfg(feature = "verif-hooks")]
+impl TransportIntegrity {
+    pub(crate) fn verif_violated(&self) -> Vec<TransactionId> {
+        self.transactions.iter().copied().collect()
+    }
+}
+
 #[cfg(test)]
 mod validate_integrity_tests {
     use crate::Integrity;
